@@ -155,3 +155,32 @@ func VerifIsLocallyModified(dir, name string, entries, log *string) (modified bo
 	panicked = VerifPanic(func() { modified = isLocallyModified(NewCurrPathString(dir + "/" + name)) })
 	return
 }
+
+// VerifRunMainSameG runs Main the way the test suite's Tester.Main does when a
+// test calls it several times: on the G of the previous call.  Everything in G
+// survives (file cache, interner, regex registry, cvs entries cache, ...) except
+// the output formatter: Tester.Main resets Logger.errors/warnings/logged; here
+// the whole Logger is reset (suppress state, explained-once set, hint flags)
+// because Main re-creates its writers and option values anyway.  fresh = true
+// starts with a new G (first run of a sequence).  The working directory must be
+// the same for all runs of a sequence (G.cwd is set by NewPkglint).
+var verifSameGReady bool
+
+func VerifRunMainSameG(args []string, cwd string, fresh bool) VerifRunResult {
+	var res VerifRunResult
+	if err := os.Chdir(cwd); err != nil {
+		res.Panic = "panic:chdir: " + err.Error()
+		return res
+	}
+	var out, errOut bytes.Buffer
+	if fresh || !verifSameGReady {
+		G = NewPkglint(&out, &errOut)
+		verifSameGReady = true
+	} else {
+		G.Logger = Logger{}
+	}
+	res.Panic = VerifPanic(func() { res.Exit = G.Main(&out, &errOut, args) })
+	res.Stdout, res.Stderr = out.String(), errOut.String()
+	res.MapSizes = verifMapSizes()
+	return res
+}
